@@ -3,7 +3,7 @@
 cd /verif
 for s in seeded/*/; do
   id=$(basename $s)
-  props=$(/venv/bin/python -c "import json;m=json.load(open('/verif/$s/meta.json'));print(' '.join(sorted(set([m['property']]+list(m.get('caught_by',{}).keys())))))")
+  props=$(/venv/bin/python -c "import json;m=json.load(open('/verif/$s/meta.json'));print(' '.join(sorted(m.get('caught_by',{}).keys())))")
   echo "== $id ($props)"
   /verif/tools/try_seed.sh /verif/${s}patch.diff $props | grep -E "exit=" 
 done
